@@ -6,7 +6,7 @@ EXTENDS Config, TLC, Json
 CONSTANTS Discoveries
 VARIABLES cliP, fileP, disc, cliE, tab
 
-TableProfiles == {"basic", "overlap", "same"}
+TableProfiles == {"basic", "overlap", "same", "generic_mapped"}
 \* cliE: at most one setting whose option is given with an EMPTY value (prefixes only: an empty package is a refusal, C07)
 Init == /\ cliP \in SUBSET Settings /\ fileP \in SUBSET Settings /\ disc \in Discoveries
         /\ cliE \in {{}} \cup {{s} : s \in {"swift_prefix", "kotlin_prefix"} \ cliP}
@@ -14,6 +14,7 @@ Init == /\ cliP \in SUBSET Settings /\ fileP \in SUBSET Settings /\ disc \in Dis
         \* tab: which file-only tables (type mappings, decorators, generic constraints, CodableVoid constraints, acronyms,
         \* no_pointer_slice) the configuration file carries: basic / overlap (several entries, the same entry in more than one list,
         \* two mappings) / same (one-entry lists sharing their entry; a mapping onto the Rust name of another field's type).
+        \* generic_mapped: a mapping for a type that the source uses with generic arguments (arguments no backend could translate).
         \* P (Trace_C20): whatever the profile, every table shows in the output exactly as written.
         /\ tab \in TableProfiles
         /\ (tab # "basic" => (cliP = {} /\ cliE = {} /\ disc = "flag"))
